@@ -156,17 +156,18 @@ theorem g2_bytes_spec_sound (allowInf : Bool) (bs : Bytes) (v : AffPt)
         refine ⟨?_, ?_, ?_, ?_, hc.1, hc.2⟩ <;> (dsimp only; omega)
 
 set_option maxRecDepth 100000 in
-/-- **`impl_refines_spec` for G2 bytes, partial**: when `from_bytes` returns an affine point whose
-encoding had reduced coordinates and the point is in the order-`r` subgroup, the specification
-accepts the same value.  EXCLUDED (and false, see the witnesses below): identity results
-(garbage decodes to the identity), unreduced coordinates, points outside the subgroup. -/
-theorem g2_bytes_impl_refines_spec_partial (allowInf : Bool) (bs : Bytes) (x y : F2)
-    (h : implG2Bytes bs = .ok (.aff x y))
+/-- **`impl_refines_spec` for the identity-carrying G2 decoder (`PointG2Inf`, `Accumulator`),
+partial**: when `from_bytes_inf` returns an affine point whose encoding had reduced coordinates and
+the point is in the order-`r` subgroup, the specification accepts the same value.  EXCLUDED (and
+false, see the witnesses below — open findings): identity results (garbage decodes to the
+identity), unreduced coordinates, points outside the subgroup. -/
+theorem g2inf_bytes_impl_refines_spec_partial (allowInf : Bool) (bs : Bytes) (x y : F2)
+    (h : implG2BytesInf bs = .ok (.aff x y))
     (hred : beNat (slice bs 0 32) < p ∧ beNat (slice bs 32 32) < p ∧ beNat (slice bs 64 32) < p ∧
       beNat (slice bs 96 32) < p)
     (hsub : inSubgroup B2 (Pt.ofAffine x y) = true) (hid : bs ≠ g2IdBytes) :
     specG2Bytes allowInf bs = .ok (.aff x y) := by
-  unfold implG2Bytes at h
+  unfold implG2BytesInf at h
   by_cases hl : bs.length ≠ 128
   · simp [hl] at h
   · simp only [hl, if_false] at h
@@ -183,19 +184,69 @@ theorem g2_bytes_impl_refines_spec_partial (allowInf : Bool) (bs : Bytes) (x y :
       simp [hc, hsub]
     · cases h
 
+set_option maxRecDepth 100000 in
+/-- what `from_bytes_inf` returns as an affine point has reduced coordinates on the curve -/
+theorem implG2BytesInf_aff (bs : Bytes) (x y : F2) (h : implG2BytesInf bs = .ok (.aff x y)) :
+    x.a < p ∧ x.b < p ∧ y.a < p ∧ y.b < p ∧ onCurveAff B2 x y = true := by
+  have hp : 0 < p := by decide
+  unfold implG2BytesInf at h
+  dsimp only at h
+  split_ifs at h with hl hc
+  · obtain ⟨hx, hy⟩ := AffPt.aff.inj (Res.ok.inj h)
+    subst hx; subst hy
+    exact ⟨Nat.mod_lt _ hp, Nat.mod_lt _ hp, Nat.mod_lt _ hp, Nat.mod_lt _ hp, hc⟩
+  · cases Res.ok.inj h
+
+set_option maxRecDepth 100000 in
+/-- **`impl_refines_spec` for `PointG2::from_bytes` (`Tail`, keys, proofs), partial**: whatever the
+strict decoder accepts is accepted by the specification with the same value, PROVIDED the point is
+in the order-`r` subgroup — the only excluded inputs are the on-curve points outside the subgroup
+(open finding `C16/g2_subgroup_unchecked`, witness `g2_nonsubgroup_accepted`).  Garbage, the
+identity and unreduced coordinates are refused (`8bb8be0`). -/
+theorem g2_bytes_impl_refines_spec_partial (allowInf : Bool) (bs : Bytes) (x y : F2)
+    (h : implG2Bytes bs = .ok (.aff x y)) (hsub : inSubgroup B2 (Pt.ofAffine x y) = true) :
+    specG2Bytes allowInf bs = .ok (.aff x y) := by
+  obtain ⟨hinf, he⟩ := implG2Bytes_ok bs x y h
+  obtain ⟨hxa, hxb, hya, hyb, hc⟩ := implG2BytesInf_aff bs x y hinf
+  have hred := (g2_round x y hxa hxb hya hyb hc).2
+  rw [he] at hred
+  have hid : bs ≠ g2IdBytes := by
+    intro e
+    rw [e] at hinf
+    have : implG2BytesInf g2IdBytes = .ok .inf := by decide +kernel
+    rw [this] at hinf
+    cases Res.ok.inj hinf
+  exact g2inf_bytes_impl_refines_spec_partial allowInf bs x y hinf hred hsub hid
+
 /-- the decoders of points never panic in the model (they have no panicking branch; on the real
 code this is observed by the stream `dec`) -/
 theorem point_bytes_never_panic (bs : Bytes) :
-    implG2Bytes bs ≠ .panic ∧ implG1Bytes bs ≠ .panic ∧ implPairBytes bs ≠ .panic := by
-  refine ⟨?_, ?_, ?_⟩
-  · intro h; unfold implG2Bytes at h; dsimp only at h
+    implG2BytesInf bs ≠ .panic ∧ implG2Bytes bs ≠ .panic ∧ implG1Bytes bs ≠ .panic ∧
+    implPairBytes bs ≠ .panic := by
+  have h2 : implG2BytesInf bs ≠ .panic := by
+    intro h; unfold implG2BytesInf at h; dsimp only at h
     split_ifs at h <;> exact Res.noConfusion h
-  · intro h; unfold implG1Bytes at h; dsimp only at h
+  have h1 : amclG1FromBytes bs ≠ .panic := by
+    intro h; unfold amclG1FromBytes at h; dsimp only at h
     split_ifs at h <;> exact Res.noConfusion h
+  refine ⟨h2, ?_, ?_, ?_⟩
+  · intro h; unfold implG2Bytes at h
+    cases hi : implG2BytesInf bs with
+    | ok v => rw [hi] at h; cases v <;> simp at h <;> split_ifs at h
+    | err => rw [hi] at h; simp at h
+    | panic => exact h2 hi
+    | dep => rw [hi] at h; simp at h
+  · intro h; unfold implG1Bytes at h
+    cases hi : amclG1FromBytes bs with
+    | ok v => rw [hi] at h; cases v <;> simp at h <;> split_ifs at h
+    | err => rw [hi] at h; simp at h
+    | panic => exact h1 hi
+    | dep => rw [hi] at h; simp at h
   · intro h; unfold implPairBytes at h
     split_ifs at h <;> exact Res.noConfusion h
 
-/-! ### witnesses: where `impl_refines_spec` is false on the current tree -/
+/-! ### witnesses: where `impl_refines_spec` is false on the current tree, and regression
+witnesses of the repaired defects -/
 
 /-- an on-curve point of the twist that was NOT multiplied by the cofactor (made with amcl) -/
 def nsX : F2 := ⟨12214187476470319728671463654900646951684427820737398340746762120969327979992,
@@ -204,12 +255,13 @@ def nsY : F2 := ⟨5706423131858436662504004635360058099132514300418979605065081
   6823953241352100859322530734992916439959569698901886965106508844282730553189⟩
 
 set_option maxRecDepth 100000 in
-/-- **finding `C16/g2_subgroup_unchecked`**: the point `(nsX, nsY)` satisfies the twist equation, is
+/-- **open finding `C16/g2_subgroup_unchecked`**: the point `(nsX, nsY)` satisfies the twist equation, is
 not in the subgroup of order `r` (`r•P ≠ O`), and its 128-byte encoding is ACCEPTED by
 `PointG2::from_bytes` / `PointG2Inf::from_bytes` while the specification refuses it -/
 theorem g2_nonsubgroup_accepted :
     onCurveAff B2 nsX nsY = true ∧ inSubgroup B2 (Pt.ofAffine nsX nsY) = false ∧
     implG2Bytes (g2BytesOfAffine nsX nsY) = .ok (.aff nsX nsY) ∧
+    implG2BytesInf (g2BytesOfAffine nsX nsY) = .ok (.aff nsX nsY) ∧
     specG2Bytes false (g2BytesOfAffine nsX nsY) = .err ∧
     specG2Bytes true (g2BytesOfAffine nsX nsY) = .err := by decide +kernel
 
@@ -222,45 +274,58 @@ theorem g2_nonsubgroup_accepted_text :
   decide +kernel
 
 set_option maxRecDepth 100000 in
-/-- **finding `C16/g2_bytes_invalid_to_identity`** (`bytes_garbage_accepted`): 128 zero bytes — and
-128 bytes `01 02 03 …` — are not on the curve; `from_bytes` returns the IDENTITY without an error,
-for `PointG2` (which must not hold the identity) as for `PointG2Inf` -/
-theorem g2_bytes_garbage_accepted :
-    implG2Bytes (List.replicate 128 0) = .ok .inf ∧ specG2Bytes true (List.replicate 128 0) = .err ∧
-    specG2Bytes false (List.replicate 128 0) = .err ∧
-    implG2Bytes ((List.range 128).map (· + 1)) = .ok .inf ∧
+/-- repaired defect `C16/g2_bytes_invalid_to_identity` (`8bb8be0`): 128 zero bytes — and 128 bytes
+`01 02 03 …` — are not on the curve; `PointG2::from_bytes` now REFUSES them (and the identity's own
+encoding).  **Open finding `C16/g2inf_bytes_invalid_to_identity`**: the identity-carrying decoder
+(`PointG2Inf`, `Accumulator`) still returns the identity for them without an error -/
+theorem g2_bytes_garbage :
+    implG2Bytes (List.replicate 128 0) = .err ∧ implG2Bytes ((List.range 128).map (· + 1)) = .err ∧
+    implG2Bytes g2IdBytes = .err ∧
+    implG2BytesInf (List.replicate 128 0) = .ok .inf ∧ specG2Bytes true (List.replicate 128 0) = .err ∧
+    implG2BytesInf ((List.range 128).map (· + 1)) = .ok .inf ∧
     specG2Bytes true ((List.range 128).map (· + 1)) = .err := by decide +kernel
 
 set_option maxRecDepth 100000 in
-/-- **finding `C16/g1_bytes_invalid_to_identity`**: the same for `PointG1::from_bytes` (unknown tag
-byte, off-curve pair); and the identity's own encoding is accepted although `PointG1` has no
-identity-carrying type -/
-theorem g1_bytes_garbage_accepted :
-    implG1Bytes (List.replicate 128 0) = .ok .inf ∧ specG1Bytes (List.replicate 128 0) = .err ∧
-    implG1Bytes ([4] ++ toBE 32 5 ++ toBE 32 7 ++ List.replicate 63 0) = .ok .inf ∧
-    specG1Bytes ([4] ++ toBE 32 5 ++ toBE 32 7 ++ List.replicate 63 0) = .err ∧
-    implG1Bytes g1IdBytes = .ok .inf ∧ specG1Bytes g1IdBytes = .err := by decide +kernel
+/-- repaired defects `C16/g1_bytes_invalid_to_identity`, `…_compressed_form_accepted`,
+`…_padding_ignored` (`8bb8be0`): `PointG1::from_bytes` refuses zero bytes, an off-curve pair, the
+identity's own encoding, the compressed form of a point (which amcl's `frombytes` decodes) and a
+valid encoding with a non-zero padding byte; the valid encoding itself is accepted -/
+theorem g1_bytes_garbage_refused :
+    implG1Bytes (List.replicate 128 0) = .err ∧
+    implG1Bytes ([4] ++ toBE 32 5 ++ toBE 32 7 ++ List.replicate 63 0) = .err ∧
+    implG1Bytes g1IdBytes = .err ∧
+    amclG1FromBytes ([2] ++ toBE 32 (p - 1) ++ List.replicate 95 0) = .ok (.aff ⟨p - 1, 0⟩ ⟨p - 1, 0⟩) ∧
+    implG1Bytes ([2] ++ toBE 32 (p - 1) ++ List.replicate 95 0) = .err ∧
+    implG1Bytes ([4] ++ toBE 32 (p - 1) ++ toBE 32 1 ++ List.replicate 62 0 ++ [9]) = .err ∧
+    implG1Bytes (g1BytesOfAffine (p - 1) 1) = .ok (.aff ⟨p - 1, 0⟩ ⟨1, 0⟩) := by decide +kernel
 
 set_option maxRecDepth 100000 in
-/-- **finding `C16/g2_bytes_coordinate_not_reduced`**: adding `p` to a coordinate (still `< 2^256`)
-gives a second encoding of the generator that `from_bytes` accepts with the same value -/
-theorem g2_bytes_unreduced_coordinate_accepted :
+/-- adding `p` to a coordinate (still `< 2^256`) gives a second spelling of the generator: the
+strict decoder refuses it (repaired, `8bb8be0`); **open finding
+`C16/g2_bytes_coordinate_not_reduced`**: the identity-carrying decoder accepts it with the same
+value -/
+theorem g2_bytes_unreduced_coordinate :
     let gx : F2 := ⟨0x061A10BB519EB62FEB8D8C7E8C61EDB6A4648BBB4898BF0D91EE4224C803FB2B, 0x0516AAF9BA737833310AA78C5982AA5B1F4D746BAE3784B70D8C34C1E7D54CF3⟩
     let gy : F2 := ⟨0x021897A06BAF93439A90E096698C822329BD0AE6BDBE09BD19F0E07891CD2B9A, 0x0EBB2B0E7C8B15268F6D4456F5F38D37B09006FFD739C9578A2D1AEC6B3ACE9B⟩
     let bs := toBE 32 (gx.a + p) ++ toBE 32 gx.b ++ toBE 32 gy.a ++ toBE 32 gy.b
-    implG2Bytes bs = .ok (.aff gx gy) ∧ specG2Bytes false bs = .err ∧
+    implG2Bytes bs = .err ∧ implG2BytesInf bs = .ok (.aff gx gy) ∧ specG2Bytes true bs = .err ∧
+    implG2Bytes (g2BytesOfAffine gx gy) = .ok (.aff gx gy) ∧
     specG2Bytes false (g2BytesOfAffine gx gy) = .ok (.aff gx gy) := by decide +kernel
 
 set_option maxRecDepth 100000 in
-/-- **finding `C16/identity_smuggled_as_residue_p`**: in text form the identity written with the
-residue `p` (≡ 0) and excess counter 1 in `x` and `z` passes the curve test and is not recognised
-as the identity by amcl's `is_infinity` (`FP::reduce` makes no subtraction for counter 1):
-`PointG1::from_string` accepts it; with counter 2 it is recognised and refused -/
-theorem g1_identity_smuggled_text :
-    (implG1Text false (rawText [⟨1, p⟩, ⟨1, Rm⟩, ⟨1, p⟩])).tag = "ok" ∧
+/-- repaired defect `C16/identity_smuggled_as_residue_p` (`6165e8b`): the identity written with the
+residue `p` (≡ 0) and excess counter 1 in `x` and `z` — which amcl's `is_infinity` does not
+recognise — is now recognised: `PointG1::from_string` refuses it like every other spelling of the
+identity, the specification agrees, and `from_string_inf` normalises it (for G2 the spelling
+lies outside the modelled domain of amcl's `Fp2` arithmetic; the real decoders are observed on it
+by the stream `dec`) -/
+theorem g1_identity_residue_p_refused :
+    (implG1Text false (rawText [⟨1, p⟩, ⟨1, Rm⟩, ⟨1, p⟩])).tag = "err" ∧
     (specG1Text (rawText [⟨1, p⟩, ⟨1, Rm⟩, ⟨1, p⟩])).tag = "err" ∧
     (implG1Text false (rawText [⟨2, p⟩, ⟨1, Rm⟩, ⟨2, p⟩])).tag = "err" ∧
-    (implG1Text false (rawText [⟨1, 0⟩, ⟨2, Rm⟩, ⟨1, 0⟩])).tag = "err" := by decide +kernel
+    (implG1Text false (rawText [⟨1, 0⟩, ⟨2, Rm⟩, ⟨1, 0⟩])).tag = "err" ∧
+    implG1Text true (rawText [⟨1, p⟩, ⟨1, Rm⟩, ⟨1, p⟩]) = .ok ⟨g1IdRaw⟩ := by
+  decide +kernel
 
 set_option maxRecDepth 100000 in
 /-- **findings `C16/pair_text_zero_accepted`, `C16/pair_bytes_unvalidated`**: the zero element of
@@ -295,7 +360,7 @@ theorem g2_bytes_spec_reencode (allowInf : Bool) (x y : F2) (hxa : x.a < p) (hxb
     (hs : inSubgroup B2 (Pt.ofAffine x y) = true) (hid : g2BytesOfAffine x y ≠ g2IdBytes) :
     specG2Bytes allowInf (g2BytesOfAffine x y) = .ok (.aff x y) := by
   have himpl := g2_round x y hxa hxb hya hyb hc
-  exact g2_bytes_impl_refines_spec_partial allowInf _ x y himpl.1 himpl.2 hs hid
+  exact g2inf_bytes_impl_refines_spec_partial allowInf _ x y himpl.1 himpl.2 hs hid
 
 set_option maxRecDepth 100000 in
 theorem g2_identity_spec : specG2Bytes true g2IdBytes = .ok .inf ∧ specG2Bytes false g2IdBytes = .err := by
